@@ -40,6 +40,11 @@ def IDENT(value):
     return value
 
 
+def APPLY(fn, *args, **kwargs):
+    """A helper shared by every program of the module: it forwards to whatever it is handed."""
+    return fn(*args, **kwargs)
+
+
 def ONLYWRAP(func):
     """A decorator that only wraps."""
     @functools.wraps(func)
